@@ -61,6 +61,9 @@ func ParseWithStartPos(src []byte, filename string, start hcl.Pos) (*hcl.File, h
 			Attrs:     []*objectAttr{},
 			SrcRange:  fakeRange,
 			OpenRange: fakeRange,
+
+			// MissingItemRange is taken from CloseRange
+			CloseRange: fakeRange,
 		}
 	}
 
